@@ -149,20 +149,27 @@ def time_limit(seconds, what=""):
     import signal
     import time as _t
 
+    start = _t.monotonic()
+    state = {"outer_left": 0.0, "outer_handler": None}
+
     def _raise(signum, frame):
+        # an enclosing budget that ran out while this one was active is reported as the ENCLOSING one
+        if state["outer_left"] and callable(state["outer_handler"]) and _t.monotonic() - start >= state["outer_left"] - 1e-3:
+            state["outer_handler"](signum, frame)
         raise ImplTimeout(f"no result within {seconds} s: {what}")
 
     old_handler = signal.signal(signal.SIGALRM, _raise)
-    old_left = signal.alarm(0)
-    start = _t.time()
-    signal.alarm(int(seconds) if not old_left else max(1, min(int(seconds), old_left)))
+    old_left = signal.setitimer(signal.ITIMER_REAL, 0)[0]      # seconds (float) left on an enclosing budget, 0 if none
+    state["outer_left"], state["outer_handler"] = old_left, old_handler
+    signal.setitimer(signal.ITIMER_REAL, float(seconds) if not old_left else max(1e-4, min(float(seconds), old_left)))
     try:
         yield
     finally:
-        signal.alarm(0)
+        signal.setitimer(signal.ITIMER_REAL, 0)
         signal.signal(signal.SIGALRM, old_handler)
         if old_left:
-            signal.alarm(max(1, old_left - int(_t.time() - start)))
+            # the enclosing budget keeps running (float arithmetic: thousands of sub-second inner budgets must not pause it)
+            signal.setitimer(signal.ITIMER_REAL, max(1e-4, old_left - (_t.monotonic() - start)))
 
 
 def regen_sources(prop):
